@@ -203,6 +203,9 @@ def native_confirms(nr, viol):
     rc = nr['rc']; out = nr['out']; err = nr['err']
     k = viol['kind']
     if rc in (4, 5): return None          # replay mismatch: inconclusive
+    if k == 'assert' and str(viol.get('msg', '')).startswith('recursion depth exceeds'):
+        # unbounded recursion: natively a stack overflow (ASan report / SIGSEGV) or a run that does not end
+        return bool(nr.get('sanitizer')) or 'stack-overflow' in err or rc == 'timeout' or rc in (-11, -6, 139, 134)
     if k == 'assert': return 'ASSERT-FAIL' in out
     if k == 'uncaught': return 'UNCAUGHT' in out or 'terminate called' in err
     if k in ('memory', 'ub'): return bool(nr.get('sanitizer')) or ('ERROR: AddressSanitizer' in err) or ('runtime error' in err) or rc == 'timeout' or rc in (-11, -6, 139, 134)
